@@ -51,23 +51,44 @@ def ensure_cert():
         raise ToolError("openssl failed: " + p.stdout[-500:])
 
 
+_HANDED_OUT = set()
+
+
+def _ephemeral_range():
+    try:
+        lo, hi = open("/proc/sys/net/ipv4/ip_local_port_range").read().split()
+        return int(lo), int(hi)
+    except (OSError, ValueError):
+        return 32768, 60999
+
+
 def free_port(kind="tcp", also_udp=False):
-    """A port that is free right now for TCP (and UDP when asked)."""
-    for _ in range(50):
-        s = socket.socket(socket.AF_INET, socket.SOCK_STREAM if kind == "tcp" else socket.SOCK_DGRAM)
-        s.setsockopt(socket.SOL_SOCKET, socket.SO_REUSEADDR, 1)
-        s.bind(("127.0.0.1", 0))
-        port = s.getsockname()[1]
+    """A port that is free right now for TCP (and UDP when asked), for a process that will bind it a moment later.
+    Taken from BELOW the kernel's ephemeral range and never handed out twice by this harness process, so that neither a
+    bind(0) of the harness itself (targets, middleboxes) nor an outgoing connection of the processes under test can be
+    given the same number between this call and the bind."""
+    lo, _ = _ephemeral_range()
+    base, top = (10000, lo - 1) if lo > 12000 else (61000, 65000)
+    rnd = random.Random(os.getpid() * 7919 + len(_HANDED_OUT) * 104729 + int(time.time() * 1000) % 1000003)
+    for _ in range(400):
+        port = rnd.randint(base, top)
+        if port in _HANDED_OUT:
+            continue
         ok = True
-        if also_udp or kind != "tcp":
-            u = socket.socket(socket.AF_INET, socket.SOCK_DGRAM if kind == "tcp" else socket.SOCK_STREAM)
+        socks = []
+        for k in ([socket.SOCK_STREAM, socket.SOCK_DGRAM] if (also_udp or kind != "tcp") else [socket.SOCK_STREAM]):
+            s = socket.socket(socket.AF_INET, k)
+            if k == socket.SOCK_STREAM:
+                s.setsockopt(socket.SOL_SOCKET, socket.SO_REUSEADDR, 1)
             try:
-                u.bind(("127.0.0.1", port))
+                s.bind(("127.0.0.1", port))
             except OSError:
                 ok = False
-            u.close()
-        s.close()
+            socks.append(s)
+        for s in socks:
+            s.close()
         if ok:
+            _HANDED_OUT.add(port)
             return port
     raise ToolError("no free port")
 
